@@ -3,41 +3,55 @@
    FULL statement (what the property says): for every program of native operations the joint quantum state of all held
    qubits equals the state of an ideal single register, and every reported outcome has non-zero probability there.
 
-   What is PROVED here (placement layer, hence the suffix _partial): over Model V, in every reachable state, for every
-   placement history and all seven merge cases, each native operation issues its engine call on exactly the register
-   position whose recorded identity is the physical qubit the handle denotes — control and target in that order —
-   after merges under which the bookkeeping invariant (Properties/C02.v) and the identity records are preserved;
-   sending hands over the same physical qubit; physical-qubit identities are never duplicated.
-   What is MISSING for the full statement: (i) the engine contract "absorb = tensor product with the absorbed
-   positions offset, remove = deletion with shift" (Properties/C15.v, stabilizer backend) and the group-level
-   gate/measurement theorems (C13/C14) are not yet composed with this layer into a single equation
-   "joint stabilizer group = ideal group"; (ii) Hilbert space is not formalised.  The composition is exercised on every
-   run by the state-vector oracle of harness/net_run.py (joint state compared after EVERY operation). *)
+   PROVED here, over Model V, for all networks, all programs and all placement histories, in two layers.
+
+   Layer 1 (placement, Net/Placement.v): in every reachable state each native operation issues its engine call on exactly
+   the register position whose recorded identity is the physical qubit the handle denotes — control and target in that
+   order — after merges (all seven cases) under which the bookkeeping invariant (Properties/C02.v) is preserved; sending
+   hands over the same physical qubit; physical-qubit identities are never duplicated.
+
+   Layer 2 (stabilizer groups, Net/Joint*.v, Ideal.v, Transparency.v): states are compared as stabilizer GROUPS of signed
+   Pauli strings over physical-qubit identities (order-free: `gstr = ph * (nat -> pauli)`, equality `geq` = same phase,
+   pointwise same Paulis).  `joint s P`: P is in the product of the groups of all registers of all nodes, each register
+   placed on the identities it records (C01_joint_ideal_explicit gives the paper form).  The ideal machine (`istep`) keeps
+   ONE tableau over the identities in creation order; a Model-V operation is translated (`tr`) through the identities
+   only; refused / ignored operations become no-ops.  C01_location_transparency: after any program, joint group = ideal
+   group, and the list of measurement outcomes Model V reports equals the ideal machine's for the same coins.
+   C01_reported_outcome_possible: the reported outcome has non-zero probability (the projector of the other eigenvalue
+   does not stabilise the state).  Composition of: register merges = regrouping of the product (C13 tensor_group), gates =
+   conjugation at the identity (C13 gate*_group_image), creation = a |0> factor (C13 add_qubit_group), measurement =
+   C14 meas_random / meas_determined(_outcome) / destructive theorems / meas_repeat.
+
+   NOT formalised (same status as C13/C14): the link stabilizer group <-> Hilbert-space vector and the Born rule
+   ("probability > 0" is the group-level criterion above; probability 1/2 of the random branch is "both coins accepted").
+   Backends other than the stabilizer engine are covered by the engine contract C15, not here.  The state-vector oracle of
+   harness/net_run.py still compares the joint state after EVERY operation on the implementation. *)
 From Coq Require Import List Bool Arith.
-From SQ Require Import Base.ListUtil Stab.Tableau Net.Model Net.Refusal Net.Handles Net.Inv Net.InvStep Net.Bookkeeping Net.Placement.
+From SQ Require Import Base.ListUtil Stab.Tableau Net.Model Net.Refusal Net.Handles Net.Inv Net.InvStep Net.Bookkeeping Net.Placement
+  Stab.Pauli Stab.LocalZ Net.RegsPerm Net.Joint Net.JointOps Net.JointExplicit Net.Ideal Net.Transparency Net.TransparencyExamples.
 Import ListNotations.
 
-Theorem C01_single_qubit_gate_hits_denoted_qubit_partial : forall s h g gg vi q,
+Theorem C01_single_qubit_gate_hits_denoted_qubit : forall s h g gg vi q,
   reachable s -> find_handle s h = Some (vi, q) -> gate1_of g = Some gg ->
   exists x r, In r (regs (nth_node s (v_simNode q))) /\ s_pos x < r_n r /\
               nth (s_pos x) (r_ids r) 0 = v_qid q /\
               step s (OGate1 h g) =
               (update_reg_at s (v_simNode q) (reg_with_tab r (r_n r) (tab_gate1 gg (r_n r) (s_pos x) (r_tab r))), OkNone).
 Proof. exact gate1_hits_denoted_qubit. Qed.
-Print Assumptions C01_single_qubit_gate_hits_denoted_qubit_partial.
+Print Assumptions C01_single_qubit_gate_hits_denoted_qubit.
 
-Theorem C01_measurement_hits_denoted_qubit_partial : forall s h ip c vi q,
+Theorem C01_measurement_hits_denoted_qubit : forall s h ip c vi q,
   reachable s -> find_handle s h = Some (vi, q) ->
   exists x r, In r (regs (nth_node s (v_simNode q))) /\ s_pos x < r_n r /\
               nth (s_pos x) (r_ids r) 0 = v_qid q /\
               snd (step s (OMeas h ip c)) =
               Ok (if fst (fst (measure (r_n r) (s_pos x) true c (r_tab r))) then 1 else 0).
 Proof. exact measure_hits_denoted_qubit. Qed.
-Print Assumptions C01_measurement_hits_denoted_qubit_partial.
+Print Assumptions C01_measurement_hits_denoted_qubit.
 
 (* all seven placement cases: after the merges (state sm, invariant intact) the gate is applied in ONE register at the
    positions carrying the control's and the target's identities, in that order *)
-Theorem C01_two_qubit_gate_hits_denoted_qubits_partial : forall s h1 h2 g vi q1 q2,
+Theorem C01_two_qubit_gate_hits_denoted_qubits : forall s h1 h2 g vi q1 q2,
   reachable s -> find_handle s h1 = Some (vi, q1) -> find_handle s h2 = Some (vi, q2) -> h1 <> h2 ->
   exists sm ni k p1 p2 r,
     ginv sm /\
@@ -45,16 +59,88 @@ Theorem C01_two_qubit_gate_hits_denoted_qubits_partial : forall s h1 h2 g vi q1 
     In r (regs (nth_node sm ni)) /\ r_num r = k /\ p1 < r_n r /\ p2 < r_n r /\ p1 <> p2 /\
     nth p1 (r_ids r) 0 = v_qid q1 /\ nth p2 (r_ids r) 0 = v_qid q2.
 Proof. exact gate2_hits_denoted_qubits. Qed.
-Print Assumptions C01_two_qubit_gate_hits_denoted_qubits_partial.
+Print Assumptions C01_two_qubit_gate_hits_denoted_qubits.
 
-Theorem C01_send_moves_same_physical_qubit_partial : forall s h t v vi q,
+Theorem C01_send_moves_same_physical_qubit : forall s h t v vi q,
   reachable s -> find_handle s h = Some (vi, q) -> snd (step s (OSend h t)) = Ok v ->
   exists q', In q' (virt (nth_node (fst (step s (OSend h t))) t)) /\ v_num q' = v /\
              v_qid q' = v_qid q /\ v_simNode q' = v_simNode q /\ v_simNum q' = v_simNum q /\ v_hid q' = next_hid s.
 Proof. exact send_moves_same_qubit. Qed.
-Print Assumptions C01_send_moves_same_physical_qubit_partial.
+Print Assumptions C01_send_moves_same_physical_qubit.
 
-Theorem C01_physical_qubit_held_once_partial : forall s i j q q',
+Theorem C01_physical_qubit_held_once : forall s i j q q',
   reachable s -> In q (virt (nth_node s i)) -> In q' (virt (nth_node s j)) -> v_qid q = v_qid q' -> i = j /\ q = q'.
 Proof. exact qid_identifies_held_qubit. Qed.
-Print Assumptions C01_physical_qubit_held_once_partial.
+Print Assumptions C01_physical_qubit_held_once.
+
+(* ================= layer 2: joint stabilizer group = ideal group ============================================================ *)
+
+(* MAIN THEOREM.  s = the network after the program; st = the ideal register after the translated program (same coins). *)
+Theorem C01_location_transparency : forall caps ops,
+  let s := run (init_net caps) ops in
+  let iops := tr_run (init_net caps) ops in
+  let st := irun iinit iops in
+  (forall P, joint s P <-> ideal st P) /\
+  outs_meas ops (run_outs (init_net caps) ops) = irun_outs iinit iops.
+Proof. exact location_transparency. Qed.
+Print Assumptions C01_location_transparency.
+
+(* one step, from any reachable state that is matched with an ideal state (`tcore`: same group, same identities, both
+   sides well-formed): the next states are matched again and the reported outcome is the ideal machine's *)
+Theorem C01_step_transparency : forall s st o, reachable s -> tcore s st ->
+  tcore (fst (step s o)) (fst (istep st (tr s o))) /\ out_meas o (snd (step s o)) = snd (istep st (tr s o)).
+Proof. exact step_tcore. Qed.
+Print Assumptions C01_step_transparency.
+
+(* register merges (local_merge, merge_from, the forced temporary register; any sequence of them) keep the joint group *)
+Theorem C01_merges_keep_joint_group : forall s sm, mrel s sm -> fsok (factors s) ->
+  fsok (factors sm) /\ (forall y, In y (all_ids (factors sm)) <-> In y (all_ids (factors s))) /\
+  forall P, jgroup (factors sm) P <-> jgroup (factors s) P.
+Proof. exact mrel_factors. Qed.
+Print Assumptions C01_merges_keep_joint_group.
+
+(* every reported outcome has non-zero probability in the joint state and in the ideal state *)
+Theorem C01_reported_outcome_possible : forall caps ops h ip c v,
+  let s := run (init_net caps) ops in
+  let st := irun iinit (tr_run (init_net caps) ops) in
+  snd (step s (OMeas h ip c)) = Ok v ->
+  exists vi q, find_handle s h = Some (vi, q) /\ (v = 0 \/ v = 1) /\
+    ~ joint s (gz (ph_of_sign (negb (Nat.eqb v 1))) (v_qid q)) /\
+    ~ ideal st (gz (ph_of_sign (negb (Nat.eqb v 1))) (v_qid q)).
+Proof. exact reported_outcome_possible. Qed.
+Print Assumptions C01_reported_outcome_possible.
+
+(* reachable states: identities recorded in registers are pairwise different across all registers of all nodes, every
+   register is a full stabilizer state of its size, the ideal register holds exactly the same identities *)
+Theorem C01_reachable_registers_wellformed : forall caps ops,
+  let s := run (init_net caps) ops in
+  let st := irun iinit (tr_run (init_net caps) ops) in
+  NoDup (flat_map r_ids (all_regs s)) /\
+  (forall r, In r (all_regs s) -> length (r_ids r) = r_n r /\ full (r_n r) (r_tab r)) /\
+  NoDup (fst st) /\ full (length (fst st)) (snd st) /\
+  (forall y, In y (fst st) <-> In y (flat_map r_ids (all_regs s))).
+Proof. exact reachable_factors_ok. Qed.
+Print Assumptions C01_reachable_registers_wellformed.
+
+(* `joint` / `ideal` in paper form: one group element per register, P restricted to the register's identities is that
+   element position by position, identity elsewhere, phases add up *)
+Theorem C01_joint_ideal_explicit : forall caps ops P,
+  let s := run (init_net caps) ops in
+  let st := irun iinit (tr_run (init_net caps) ops) in
+  (joint s P <-> explicit (factors s) P) /\ (ideal st P <-> explicit [ifac st] P).
+Proof. exact joint_ideal_explicit. Qed.
+Print Assumptions C01_joint_ideal_explicit.
+
+(* non-vacuity: three nodes, both-remote merge, Bell pair split over two nodes, a third register; Z_0 Z_1 is in the joint
+   group and (by the theorem) in the ideal group; the outcomes of both machines for an in-place and a destructive
+   measurement *)
+Theorem C01_nonvacuous_split_bell_pair :
+  factors (run (init_net caps3) prog7) =
+    [mkF [5] 1 [[false; true; false]];
+     mkF [0; 1] 2 [[true; true; false; false; false]; [false; false; true; true; false]]] /\
+  joint (run (init_net caps3) prog7) (P0, g2 0 PZ 1 PZ) /\
+  ideal (irun iinit (tr_run (init_net caps3) prog7)) (P0, g2 0 PZ 1 PZ) /\
+  outs_meas prog (run_outs (init_net caps3) prog) =
+    [None; None; None; None; None; None; None; None; Some true; Some true].
+Proof. exact (conj ex_factors (conj ex_joint_ZZ (conj ex_ideal_ZZ (proj1 (proj2 ex_outcomes))))). Qed.
+Print Assumptions C01_nonvacuous_split_bell_pair.
